@@ -658,10 +658,23 @@ func (fsm *storeFSM) Restore(r io.ReadCloser) error {
 		return err
 	}
 
-	// Set metadata on store.
-	// NOTE: No lock because Hashicorp Raft doesn't call Restore concurrently
-	// with any other function.
+	// Set metadata on store. Raft does not call Restore concurrently with
+	// Apply or Snapshot, but the service's handlers read the metadata under
+	// the store's lock at any time, and clients long-polling for a newer index
+	// wait on dataChanged: a node brought up to date by a snapshot has to wake
+	// them just as Apply does.
+	s := (*store)(fsm)
+	if s.openingRaft.Load() {
+		// Restoring the newest local snapshot while the store is being
+		// opened: the opener holds the lock and nobody is waiting yet.
+		fsm.data = data
+		return nil
+	}
+	s.mu.Lock()
+	defer s.mu.Unlock()
 	fsm.data = data
+	close(s.dataChanged)
+	s.dataChanged = make(chan struct{})
 
 	return nil
 }
